@@ -20,7 +20,7 @@ LEVEL = 'proof'
 SCOPE = ('integer laws are decided for ALL integers (no bound on coordinates); grid rotation and '
          'Area.positions are bounded (shapes <= 4x4 / areas <= 3x3 quick)')
 BOUNDS = {
-    'quick': dict(coordinates='unbounded integers', orientations='all 4 (forked)', manhattan_distance='1..4',
+    'quick': dict(moved_in_place='one pose object moved in place (directly or through Agent.position/orientation) between two uses: coordinates -3..3, 2x3 area at offsets -2..2', coordinates='unbounded integers', orientations='all 4 (forked)', manhattan_distance='1..4',
                   grid_shapes='1x1..4x4', area_positions='heights/widths 1..3, offsets and translations in [-1,1]^2 (Area.positions needs concrete coordinates)'),
     'thorough': dict(coordinates='unbounded integers', orientations='all 4 (forked)', manhattan_distance='1..6',
                      grid_shapes='1x1..6x6', area_positions='heights/widths 1..4, offsets and translations in [-1,1]^2'),
